@@ -5,6 +5,7 @@ from absn import *
 import common as C
 from polymath import Polynomial
 import c20_oracle as O
+import c20_hist as H
 
 PROP = 'C20'
 LEAN_MODULES = ['PMV.Props.C20']
@@ -178,6 +179,8 @@ def call(case):
 
 def impl(case):
     op = case['op']
+    if op == 'hist':
+        return 'oracle-only'
     try:
         with warnings.catch_warnings():
             warnings.simplefilter('error')
@@ -232,12 +235,16 @@ def obs_roots(case, r, eig_inputs):
     else:
         assert not eig_inputs
         rows = np.zeros((cnt, 0))
-    return [shape, [[[bits(x) for x in rows[i]], ['m' if m[k, i] else bits(v[k, i]) for k in range(n)]]
+    # nothing computed underneath a masked polynomial is observable (C03): neither root values nor the matrix row
+    pm = mask_bits(a['mask'], a['shape'])
+    return [shape, [[[] if pm[i] else [bits(x) for x in rows[i]], ['m' if m[k, i] else bits(v[k, i]) for k in range(n)]]
                     for i in range(cnt)]]
 
 
 # ------------------------------------------------------------------ direct oracle (independent of the model)
 def oracle(case):
+    if case['op'] == 'hist':
+        return H.judge(case)
     return O.judge(case, call, impl)
 
 
@@ -389,6 +396,8 @@ def nontrivial(case):
         nt = True
     if x is not None and a['shape'] != x['shape']:
         nt = True
+    if case['op'] == 'hist':
+        return True
     if case['op'] in ('roots', 'deriv', 'pow', 'eval', 'evald', 'bind', 'und', 'smuld', 'chaind', 'rootsd', 'invline', 'sdiv') and a['len'] >= 2:
         nt = True
     return nt
@@ -409,6 +418,8 @@ def mk(case):
         k += ':' + case['sym']
     elif k == 'chaind':
         k += ':' + case['syms'][2]
+    elif k == 'hist':
+        k += ':' + '+'.join(sorted({H.qname(st['q']) for st in case['steps'] if st.get('mut')}))
     case['kind'] = k
     return case
 
@@ -526,6 +537,37 @@ def gen_cases(rng, tier):
             for o in range(1, maxo + 1):
                 if int(np.prod(sh, dtype=int)) > 0:
                     cases.append(mk({'op': 'rootsd', 'a': with_d(rand_root_poly(rng, sh, o), rng)}))
+    # 6. histories on ONE polynomial object: query, modify the RESULT in place, query again
+    HSHAPES = [[], [], [2], [3], [2, 2], [1, 3]]
+    def rand_query(rng, sh, o):
+        k = rng.choice(['deriv', 'deriv', 'deriv', 'deriv0', 'eval', 'eval', 'roots', 'neg', 'smul', 'pow', 'add', 'sub',
+                        'rsub', 'mul', 'invline'])
+        if k == 'deriv': return ['deriv', True]
+        if k == 'deriv0': return ['deriv', False]
+        if k == 'eval':
+            xs = rng.choice([[], [2]] if not sh else [[], list(sh)])
+            return ['eval', [rng.randint(-3, 3) for _ in range(int(np.prod(xs, dtype=int)))], xs]
+        if k == 'roots': return ['roots'] if o >= 1 else ['neg']
+        if k == 'invline': return ['invline'] if o == 1 else ['deriv', True]
+        if k == 'smul': return ['smul', rng.choice([-2, 2, 3])]
+        if k == 'pow': return ['pow', rng.choice([2, 3])] if o <= 3 else ['neg']
+        if k == 'neg': return ['neg']
+        return [k, with_d(rand_poly(rng, rng.choice([[], list(sh)]), rng.randint(0, 3)), rng, 0.4)]
+    def rand_mut(rng):
+        k = rng.choice(['imul', 'imul', 'idiv', 'iadd', 'isub', 'setitem', 'setitem', 'insert_deriv', 'delete_derivs'])
+        return [k, rng.choice([2, -1, 4, 3]) if k != 'setitem' else rng.choice([0, 7])]
+    for _ in range(reps * 40):
+        sh = rng.choice(HSHAPES)
+        o = rng.randint(0, min(maxo, 5))
+        a = with_d(rand_poly(rng, sh, o) if rng.random() < 0.5 else rand_root_poly(rng, sh, o), rng, 0.5)
+        if rng.random() < 0.7:
+            a['mask'] = 'F'
+        qs = [rand_query(rng, sh, o) for _ in range(rng.randint(1, 3))]
+        steps = [{'q': q, 'mut': rand_mut(rng)} for q in qs]
+        if rng.random() < 0.5:
+            steps.append({'q': qs[0], 'mut': rand_mut(rng)})      # modify a second result of the same query
+        steps += [{'q': q} for q in qs]                            # ask everything again
+        cases.append(mk({'op': 'hist', 'a': a, 'steps': steps}))
     # systematic small quadratics and linears (every sign pattern / zero pattern)
     rngc = [-2, -1, 0, 1, 2] if not thorough else [-3, -2, -1, 0, 1, 2, 3]
     for a in rngc:
@@ -543,6 +585,11 @@ def neighbours(case):
     out = []
     a = case.get('a')
     if a is None:
+        return out
+    if case['op'] == 'hist':
+        for st in case['steps']:
+            if st.get('mut'):
+                out.append(mk({'op': 'hist', 'a': a, 'steps': [st, {'q': st['q']}]}))
         return out
     n = int(np.prod(a['shape'], dtype=int))
     for i in range(min(n, 6)):
